@@ -70,7 +70,7 @@ fn regressions(id: &str) -> Vec<ScriptBatch> {
 }
 
 /// Bounded-exhaustive script sets: every script of at most two bytes, and the complete one-edit neighbourhood of
-/// 27 templates (every substitution of every byte by every value, every one-byte insertion at every
+/// 29 templates (every substitution of every byte by every value, every one-byte insertion at every
 /// position, every truncation) - about 600 000 scripts per coin.
 fn neighbourhood(full: bool) -> Vec<Vec<u8>> {
     let mut out: Vec<Vec<u8>> = vec![vec![]];
@@ -113,6 +113,9 @@ fn neighbourhood(full: bool) -> Vec<Vec<u8>> {
     templates.push(cat(&[&[0x60, 0x28], &h32, &h20[..8]]));
     templates.push(cat(&[&[0x61, 0x76, 0xa9, 0x14], &h20, &[0x88, 0x61, 0xac]]));
     templates.push(vec![0x51, 0x02, 0x4e, 0x73]);
+    // Namecoin name operations in front of a P2PKH template (NAME_NEW, NAME_UPDATE)
+    templates.push(cat(&[&[0x51, 0x14], &h20, &[0x6d, 0x76, 0xa9, 0x14], &h20, &[0x88, 0xac]]));
+    templates.push(cat(&[&[0x53, 0x04], b"d/ab", &[0x03], b"val", &[0x6d, 0x75, 0x76, 0xa9, 0x14], &h20, &[0x88, 0xac]]));
     templates.push(cat(&[&[0x01, 0x02, 0x21], &k33, &[0x21], &k33, &[0x21], &k33, &[0x53, 0xae]]));
     templates.push(cat(&[&[0x51, 0x21], &k33, &[0x01, 0x01, 0xae]]));
     templates.push(cat(&[&[0x76, 0xa9, 0x14], &[0u8; 20], &[0x88, 0xac]]));
@@ -247,22 +250,22 @@ fn run_property(id: &str, eng: &Engine, a: &Args) -> (&'static str, Vec<&'static
         "C05" => {
             let n = if q { 2400 } else { 80_000 };
             eng.explore("per-script", scaled(n, a), move || batch(vec![Coin::Bitcoin, Coin::Testnet3], gen::any_script(tier), 256), |b| check_script_batch(b, "C05"));
-            ("E2: batches of up to 256 scripts from the full grammar evaluated in-process by eval_from_bytes(bytes, 0x00|0x6f); each verdict (type, address, OP_RETURN payload) compared with the three-valued reference classifier and the address round-trip decoder. Non-trivial script = template / near miss / witness lookalike; distinct by script bytes. Bounded-exhaustive part 'short-scripts-and-template-neighbourhoods': every script of at most two bytes and the complete one-edit neighbourhood (every one-byte substitution, insertion, truncation) of 27 templates (canonical forms, pay-to-anchor, a burn output, multisig shapes whose number slots hold pushed data) on each coin of the property. Part 'two-substitution-neighbourhoods': every pair of byte values at two positions of the P2SH and P2WPKH templates (quick: positions among opcodes, lengths, first / last payload bytes; thorough: all position pairs).", vec![])
+            ("E2: batches of up to 256 scripts from the full grammar evaluated in-process by eval_from_bytes(bytes, 0x00|0x6f); each verdict (type, address, OP_RETURN payload) compared with the three-valued reference classifier and the address round-trip decoder. Non-trivial script = template / near miss / witness lookalike; distinct by script bytes. Bounded-exhaustive part 'short-scripts-and-template-neighbourhoods': every script of at most two bytes and the complete one-edit neighbourhood (every one-byte substitution, insertion, truncation) of 29 templates (canonical forms, pay-to-anchor, a burn output, multisig shapes whose number slots hold pushed data, Namecoin name operations in front of P2PKH) on each coin of the property. Part 'two-substitution-neighbourhoods': every pair of byte values at two positions of the P2SH and P2WPKH templates (quick: positions among opcodes, lengths, first / last payload bytes; thorough: all position pairs).", vec![])
         }
         "C06" => {
             let n = if q { 2400 } else { 80_000 };
             eng.explore("per-script", scaled(n, a), move || batch(FORK_COINS.to_vec(), prop_oneof![4 => gen::any_script(tier), 3 => gen::template_any_push(tier), 2 => gen::mutated_template(tier)].boxed(), 256), |b| check_script_batch(b, "C06"));
-            ("E2: batches of up to 256 scripts evaluated in-process with each fork coin's version byte; type, address and OP_RETURN payload compared with the strict reference tokeniser/template model. Non-trivial = contains PUSHDATA/NOP or is a template; distinct by script bytes. Bounded-exhaustive part 'short-scripts-and-template-neighbourhoods': every script of at most two bytes and the complete one-edit neighbourhood (every one-byte substitution, insertion, truncation) of 27 templates (canonical forms, pay-to-anchor, a burn output, multisig shapes whose number slots hold pushed data) on each coin of the property. Part 'two-substitution-neighbourhoods': every pair of byte values at two positions of the P2SH and P2WPKH templates (quick: positions among opcodes, lengths, first / last payload bytes; thorough: all position pairs).", vec![])
+            ("E2: batches of up to 256 scripts evaluated in-process with each fork coin's version byte; type, address and OP_RETURN payload compared with the strict reference tokeniser/template model. Non-trivial = contains PUSHDATA/NOP or is a template; distinct by script bytes. Bounded-exhaustive part 'short-scripts-and-template-neighbourhoods': every script of at most two bytes and the complete one-edit neighbourhood (every one-byte substitution, insertion, truncation) of 29 templates (canonical forms, pay-to-anchor, a burn output, multisig shapes whose number slots hold pushed data, Namecoin name operations in front of P2PKH) on each coin of the property. Part 'two-substitution-neighbourhoods': every pair of byte values at two positions of the P2SH and P2WPKH templates (quick: positions among opcodes, lengths, first / last payload bytes; thorough: all position pairs).", vec![])
         }
         "C16" => {
             let n = if q { 1600 } else { 20_000 };
             eng.explore("payload-extraction", scaled(n, a), move || batch(ALL_COINS.to_vec(), gen::c16_script(tier), 256), |b| check_script_batch(b, "C16"));
-            ("E2: OP_RETURN single-push scripts in every push encoding and payload class evaluated in-process on all 8 coins; extracted payload compared with the pushed bytes (valid UTF-8 only on bitcoin/testnet3, lossy on fork coins). Bounded-exhaustive part 'short-scripts-and-template-neighbourhoods': every script of at most two bytes and the complete one-edit neighbourhood (every one-byte substitution, insertion, truncation) of 27 templates (canonical forms, pay-to-anchor, a burn output, multisig shapes whose number slots hold pushed data) on each coin of the property.", vec![])
+            ("E2: OP_RETURN single-push scripts in every push encoding and payload class evaluated in-process on all 8 coins; extracted payload compared with the pushed bytes (valid UTF-8 only on bitcoin/testnet3, lossy on fork coins). Bounded-exhaustive part 'short-scripts-and-template-neighbourhoods': every script of at most two bytes and the complete one-edit neighbourhood (every one-byte substitution, insertion, truncation) of 29 templates (canonical forms, pay-to-anchor, a burn output, multisig shapes whose number slots hold pushed data, Namecoin name operations in front of P2PKH) on each coin of the property.", vec![])
         }
         "C14" => {
             let n = if q { 4000 } else { 200_000 };
             eng.explore("totality", scaled(n, a), move || batch(ALL_COINS.to_vec(), prop_oneof![3 => gen::any_script(tier), 2 => gen::many_pushes(tier), 2 => gen::token_script(tier), 1 => gen::raw_script(tier), 1 => gen::leading_opcode(tier)].boxed(), 256), |b| check_script_batch(b, "C14"));
-            ("E2: catch_unwind around eval_from_bytes for batches of hostile scripts (truncated pushes, huge PUSHDATA4, all leading opcodes, hundreds to thousands of pushes, raw bytes) on all 8 coins, debug assertions and overflow checks on; any panic or Error(..) verdict is a violation. Bounded-exhaustive part 'short-scripts-and-template-neighbourhoods': every script of at most two bytes and the complete one-edit neighbourhood (every one-byte substitution, insertion, truncation) of 27 templates (canonical forms, pay-to-anchor, a burn output, multisig shapes whose number slots hold pushed data) on each coin of the property. Part 'two-substitution-neighbourhoods': every pair of byte values at two positions of the P2SH and P2WPKH templates (quick: positions among opcodes, lengths, first / last payload bytes; thorough: all position pairs).", vec![])
+            ("E2: catch_unwind around eval_from_bytes for batches of hostile scripts (truncated pushes, huge PUSHDATA4, all leading opcodes, hundreds to thousands of pushes, raw bytes) on all 8 coins, debug assertions and overflow checks on; any panic or Error(..) verdict is a violation. Bounded-exhaustive part 'short-scripts-and-template-neighbourhoods': every script of at most two bytes and the complete one-edit neighbourhood (every one-byte substitution, insertion, truncation) of 29 templates (canonical forms, pay-to-anchor, a burn output, multisig shapes whose number slots hold pushed data, Namecoin name operations in front of P2PKH) on each coin of the property. Part 'two-substitution-neighbourhoods': every pair of byte values at two positions of the P2SH and P2WPKH templates (quick: positions among opcodes, lengths, first / last payload bytes; thorough: all position pairs).", vec![])
         }
         "C01" => {
             let n = if q { 600 } else { 20_000 };
